@@ -190,7 +190,7 @@ class ResourceCost(IndBase):
     bounded = "1..3 tasks on the resource; cost coefficients and all integers symbolic"
 
     def extra_cases(self, tier):
-        return [{"cost": c, "res": "worker"} for c in ("const", "const0", "const1", "linear", "poly2")] + [{"cost": "const", "res": "cumulative"}]
+        return [{"cost": c, "res": "worker"} for c in ("const", "const0", "const1", "linear", "poly2", "default")] + [{"cost": "const", "res": "cumulative"}, {"cost": "default", "res": "cumulative"}]
 
     def cases(self, tier):
         return [c for c in super().cases(tier) if not (c["res"] == "cumulative" and len(c["ts"]) > 2)]
@@ -198,9 +198,13 @@ class ResourceCost(IndBase):
     def make_worker(self, ps, P, case):
         c = case["cost"]
         if case["res"] == "cumulative":
+            if c == "default":
+                return ps.CumulativeWorker(name="w", size=2)  # no declared cost: costs nothing
             # the cost per period of a cumulative worker is split over its unit workers
             P.assume(P.int("c0") >= 0)
             return ps.CumulativeWorker(name="w", size=2, cost=ps.ConstantFunction(value=P.int("c0")))
+        if c == "default":
+            return ps.Worker(name="w")  # no declared cost: costs nothing
         if c == "const":
             f = ps.ConstantFunction(value=P.int("c0"))
         elif c == "const0":
@@ -223,7 +227,7 @@ class ResourceCost(IndBase):
         c = case["cost"]
         if c == "const":
             return T(P.int("c0"))
-        if c == "const0":
+        if c in ("const0", "default"):
             return z3.IntVal(0)
         if c == "const1":
             return z3.IntVal(1)
@@ -233,6 +237,8 @@ class ResourceCost(IndBase):
 
     def definition(self, P, ctx, case):
         H = self.held(ctx)
+        if case["cost"] == "default":
+            return z3.IntVal(0)
         if case["res"] == "cumulative":
             # each unit worker costs its share per busy period; the shares add up to the declared cost
             units = list(ctx["w"]._cumulative_workers)
